@@ -123,6 +123,33 @@ func streamBCD(c *ctx) {
 		w.Emit("bcd-enc "+cases.Hex(db), bcdEnc(db), "enc/long-bad-near-end")
 		w.Emit("bcd-enc "+cases.Hex(ds), bcdEnc(ds), "enc/long-valid-after-failure")
 	}
+	// long runs of non-digit characters, and very long digit strings
+	for _, n := range []int{255, 256, 257, 512, 513} {
+		for _, fill := range []byte{'x', ':', '/', ' '} {
+			bs := make([]byte, n)
+			for j := range bs {
+				bs[j] = fill
+			}
+			w.Emit("bcd-enc "+cases.Hex(bs), bcdEnc(bs), "enc/all-bad-long")
+			w.Emit("bcd-enc "+cases.Hex(append([]byte("20241231"), bs...)), bcdEnc(append([]byte("20241231"), bs...)), "enc/valid-then-all-bad-long")
+		}
+		ds := make([]byte, n)
+		for j := range ds {
+			ds[j] = byte('0' + c.r.Intn(10))
+		}
+		w.Emit("bcd-enc "+cases.Hex(ds), bcdEnc(ds), "enc/very-long-digits")
+	}
+	// long runs of non-decimal nibbles: their number passes 255 / 256 / 512 (whatever tallies them must not wrap)
+	for _, n := range []int{63, 64, 127, 128, 129, 255, 256, 257, 511, 512, 1024} {
+		for _, fill := range []byte{0xff, 0x1a, 0xa1, 0xee} {
+			bs := make([]byte, n)
+			for j := range bs {
+				bs[j] = fill
+			}
+			w.Emit("bcd-dec "+cases.Hex(bs), bcdDec(bs), "dec/all-bad-long")
+			w.Emit("bcd-dec "+cases.Hex(append([]byte{0x20, 0x24, 0x12, 0x31}, bs...)), bcdDec(append([]byte{0x20, 0x24, 0x12, 0x31}, bs...)), "dec/valid-then-all-bad-long")
+		}
+	}
 	// every length 1..16 x every nibble position x every non-decimal nibble value, all other nibbles decimal
 	for n := 1; n <= 16; n++ {
 		for pos := 0; pos < 2*n; pos++ {
